@@ -122,9 +122,9 @@ def model_runs(ctx, pid, lattice, calls, flips, label):
     probe = PROBES[pid]
     jobs = [dict(module="Session", cfg_text=cfg(probe, lattice, calls, flips, True, False, ["ProbeSeesItsArguments"]),
                  workers=4, coverage=True, timeout=1500),
-            dict(module="Session", cfg_text=cfg(probe, lattice, calls, flips, False, False), workers=6, coverage=True,
-                 timeout=1500),
-            dict(module="Session", cfg_text=cfg(probe, lattice, calls, flips, False, True), workers=1, timeout=1500)]
+            # as-is: one worker (breadth-first: shortest witnesses), statistics and HIST export in the same run
+            dict(module="Session", cfg_text=cfg(probe, lattice, calls, flips, False, True), workers=1, coverage=True,
+                 timeout=1500)]
     return jobs
 
 
@@ -142,15 +142,20 @@ def run(ctx):
     jobs, owners = [], []
     for (pid, lattice, calls, flips) in insts:
         label = "%s %s calls<=%d flips<=%d" % (pid, "small" if lattice is SMALL else "wide", calls, flips)
-        for kind, j in zip(("intended", "asis", "export"), model_runs(ctx, pid, lattice, calls, flips, label)):
+        for kind, j in zip(("intended", "asis"), model_runs(ctx, pid, lattice, calls, flips, label)):
             jobs.append(j)
             owners.append((pid, label, kind))
-    # the as-is model, one invariant at a time, smallest instance: which classes does the model say are violated?
-    for inv in INVARIANTS:
-        jobs.append(dict(module="Session", cfg_text=cfg(PROBES["P1"], SMALL, 2, 1, False, False, [inv]), workers=1,
-                         timeout=600))
-        owners.append(("P1", "as-is " + inv, "inv"))
-    results = tlc.run_parallel(jobs, max_procs=16)
+    # the as-is model against the property (smallest instance): TLC must find a counter-example; thorough: one
+    # invariant at a time - which classes does the as-is model say are violated?
+    jobs.append(dict(module="Session", cfg_text=cfg(PROBES["P1"], SMALL, 2, 1, False, False, ["ProbeSeesItsArguments"]),
+                     workers=1, timeout=600))
+    owners.append(("P1", "as-is ProbeSeesItsArguments", "inv"))
+    if not ctx.quick:
+        for inv in INVARIANTS:
+            jobs.append(dict(module="Session", cfg_text=cfg(PROBES["P1"], SMALL, 2, 1, False, False, [inv]), workers=1,
+                             timeout=600))
+            owners.append(("P1", "as-is " + inv, "inv"))
+    results = tlc.run_parallel(jobs, max_procs=8)
     ctx.log("TLC: %d runs in %.0fs" % (len(jobs), time.time() - t0))
     exported = {}       # (pid, canonical hist) -> pred
     model_classes = {}
@@ -172,12 +177,9 @@ def run(ctx):
             missing = [a for a in ACTIONS if r.coverage.get(a, (0, 0))[1] == 0]
             if missing:
                 raise Machinery("vacuity: actions never taken in %s: %s" % (label, missing))
-        else:
-            if r.violation:
-                raise Machinery("export run violates %s" % r.violation["name"])
     for label, rs in by_label.items():
         pid = label.split()[0]
-        lines = tlc.tagged(rs["export"], "HIST")
+        lines = tlc.tagged(rs["asis"], "HIST")
         want = rs["asis"].coverage.get("ProbeCall", (0, 0))[0]
         if len(lines) != want:
             raise Machinery("history export incomplete for %s: %d HIST lines, TLC counts %d distinct probe starts" % (
@@ -241,17 +243,16 @@ def judge(ctx, traces, meta):
     agree = {}
     shapes = {}
     for i, v in sorted(verdicts.items()):
-        nsteps, classes, shape, model, freshv = v
+        nsteps, classes, model, freshv = v
         pid, e = meta[i]
         agree[model] = agree.get(model, 0) + 1
         payload = {"hist": e["hist"], "probe_id": pid, "probe": PROBES.get(pid, e.get("probe"))}
         if classes != "ok":
             for c in classes.split("|"):
-                if c == "inputs":
+                if c.split(":")[0] == "inputs":
                     raise Machinery("the harness did not give both runs the same arguments (history %r)" % (e["hist"],))
-                shapes.setdefault("%s:%s" % (c, shape), 0)
-                shapes["%s:%s" % (c, shape)] += 1
-                ctx.violation("%s:%s" % (c, shape),
+                shapes[c] = shapes.get(c, 0) + 1
+                ctx.violation(c,
                               "probe %s after %s differs from the same probe in a fresh process in: %s (model: %s)" % (
                                   pid, json.dumps(e["hist"]), classes, model), payload)
         if freshv != "ok":
